@@ -301,6 +301,11 @@ def history_bmc(e, code, maps, q, res, depth, registered, g,
         present = [BoolVal(False)] * NS
         idx = [bv(0, 8)] * NS
     age = [bv(0, 8)] * NS            # deliveries of this frame so far
+    # active[k]: the group program has re-enabled the write datagrams of
+    # this frame (injected frames are sterile)
+    active = [Bool(f"active0_{k}") if arbitrary_start else BoolVal(False)
+              for k in range(NS)]
+    bad_stale = []
     deliveries = bv(0, 8)
     tstreak = bv(0, 8)               # consecutive deliveries returned passive
     bad_tstreak = []
@@ -319,6 +324,7 @@ def history_bmc(e, code, maps, q, res, depth, registered, g,
         if not allow_inject:
             cons.append(act != 6)
         npresent, nidx, nage = list(present), list(idx), list(age)
+        nactive = list(active)
         nc, nstreak, npstreak = c, streak, pstreak
         ntstreak = tstreak
         for k in range(NS):
@@ -330,6 +336,10 @@ def history_bmc(e, code, maps, q, res, depth, registered, g,
                                           npresent[k]))
             nidx[k] = If(d, io, nidx[k])
             nage[k] = If(d, age[k] + 1, nage[k])
+            nactive[k] = If(And(d, runs), BoolVal(True), nactive[k])
+            # a frame whose writes are enabled goes back to the bus without
+            # the group program having recomputed them in this pass
+            bad_stale.append(And(d, tx, active[k]))
             nstreak = If(d, If(runs, bv(0, 8), streak + 1), nstreak)
             npstreak = If(d, If(passes, pstreak + 1, bv(0, 8)), npstreak)
             ntstreak = If(d, If(tx, tstreak + 1, bv(0, 8)), ntstreak)
@@ -344,6 +354,7 @@ def history_bmc(e, code, maps, q, res, depth, registered, g,
             npresent[k] = If(inj, BoolVal(True), npresent[k])
             nidx[k] = If(inj, bv(0, 8), nidx[k])
             nage[k] = If(inj, bv(0, 8), nage[k])
+            nactive[k] = If(inj, BoolVal(False), nactive[k])
         # fresh state variables keep the terms small
         c2 = BitVec(f"c{stp + 1}", 32)
         cons.append(c2 == nc)
@@ -361,20 +372,23 @@ def history_bmc(e, code, maps, q, res, depth, registered, g,
         bad_tstreak.append(UGE(tstreak, bv(2, 8)))
         bad_tstreak3.append(UGE(tstreak, bv(3, 8)))
         bad_pstreak.append(UGE(pstreak, bv(3, 8)))
-        p2, i2, a2 = [], [], []
+        p2, i2, a2, ac2 = [], [], [], []
         for k in range(NS):
             pv, iv, av = (Bool(f"present{stp + 1}_{k}"),
                           BitVec(f"idx{stp + 1}_{k}", 8),
                           BitVec(f"age{stp + 1}_{k}", 8))
-            cons += [pv == npresent[k], iv == nidx[k], av == nage[k]]
-            p2.append(pv), i2.append(iv), a2.append(av)
+            acv = Bool(f"active{stp + 1}_{k}")
+            cons += [pv == npresent[k], iv == nidx[k], av == nage[k],
+                     acv == nactive[k]]
+            p2.append(pv), i2.append(iv), a2.append(av), ac2.append(acv)
         present, idx, age, c, streak = p2, i2, a2, c2, st2
+        active = ac2
         bad_streak.append(UGE(streak, bv(3, 8)))
         res["transitions"] += 7
     res["states"] += depth
     return dict(cons=cons, streak=bad_streak, drop=bad_drop, age=bad_age,
                 tv=trace_vars, S=S, pstreak=bad_pstreak, tstreak=bad_tstreak,
-                tstreak3=bad_tstreak3,
+                tstreak3=bad_tstreak3, stale=bad_stale,
                 left=And(Or(*present), UGE(deliveries, bv(6, 8))),
                 deliveries=deliveries)
 
@@ -402,7 +416,7 @@ def replay_history(code, maps, e, c0, g, registered, actions, start=None):
             continue
         if a == "inject":
             k = slots.index(None)
-            slots[k] = dict(idx=0, age=0)
+            slots[k] = dict(idx=0, age=0, active=False)
             log.append(f"inject->{k}")
         elif a.startswith("lose"):
             slots[int(a[-1])] = None
@@ -425,11 +439,12 @@ def replay_history(code, maps, e, c0, g, registered, actions, start=None):
             if r[0] == "tail_call":
                 streak = 0
                 slots[k]["idx"] = newidx
+                slots[k]["active"] = True
                 out = "RUN"
             elif r == ("exit", 3):
                 streak += 1
                 slots[k]["idx"] = newidx
-                out = "TX"
+                out = "TX-of-active-frame" if slots[k].get("active") else "TX"
             elif r == ("exit", 2):
                 streak += 1
                 slots[k] = None
